@@ -205,6 +205,23 @@ func c14Check(pg *Prog, expectCode int) func(x *vlab.Exec) []vlab.Violation {
 			}
 		}
 		out = append(out, c14SharedCallee(pg, ev)...)
+		// nothing of the invocation - a deferred command least of all - runs after Run has returned
+		ret := -1
+		for _, e := range ev {
+			if e.K == 'R' {
+				ret = e.Pos
+			}
+			if ret >= 0 && e.Task != "" && e.Pos > ret {
+				clause, tag := "command_after_invocation_returned", ""
+				if t := pg.Task(e.Task); t != nil {
+					if j, _ := e.CmdIndex(); j >= 0 && j < len(t.Cmds) && t.Cmds[j].Defer {
+						clause, tag = "caller_continued_before_defers", "invocation_returned"
+					}
+				}
+				out = append(out, vlab.V("C14", clause, tag, fmt.Sprintf("%s entry %s ran at position %d, after Run had returned at %d", e.Inst(), e.Idx, e.Pos, ret)))
+				break
+			}
+		}
 		if expectCode >= 0 && x.Code != expectCode {
 			out = append(out, vlab.V("C14", "outcome_changed", fmt.Sprintf("got%d:want%d", x.Code, expectCode), fmt.Sprintf("invocation status %d (%s), expected %d: deferred commands must not change the outcome", x.Code, firstN(x.ErrStr, 100), expectCode)))
 		}
@@ -328,6 +345,10 @@ func c14Specs() map[string]*c14Spec {
 		{Name: "b", Cmds: []C{dfr(), CallS("s", "="), P()}},
 		{Name: "s", Run: "once", Cmds: []C{dfr(), P(), P()}},
 		{Name: "failer", Cmds: []C{P(), F()}}}}}
+	m["exit-code-from-dep-of-callee"] = &c14Spec{code: -1, pg: &Prog{Tasks: []*T{
+		{Name: "root", Cmds: []C{dfr(), Call("x"), P()}},
+		{Name: "x", Deps: []Ref{D("bad")}, Cmds: []C{dfr(), P()}},
+		{Name: "bad", Cmds: []C{P(), F()}}}}}
 	m["cancelled-by-sibling"] = &c14Spec{code: -1, pg: &Prog{Tasks: []*T{
 		{Name: "root", Deps: []Ref{D("main"), D("failer")}},
 		{Name: "main", Cmds: []C{dfr(), P(), dfr(), P(), P()}},
